@@ -429,6 +429,10 @@ pub fn c08_subs() -> Vec<Box<dyn Sub>> {
 pub struct C10Case {
     pub m: MReg,
     pub mask: Vec<bool>,
+    /// the predicate's answer for every id that is not an id of the registry (`|_| true`,
+    /// `|id| id != x`, ... are filters too)
+    #[serde(default)]
+    pub outside: bool,
 }
 
 /// reference reachability: BFS over every reference position from the accepted ids
@@ -495,8 +499,12 @@ pub fn check_retain(m: &MReg, accept: &dyn Fn(u32) -> bool) -> Result<(BTreeMap<
 pub fn c10_body(c: &C10Case, obs: &mut Obs) -> Result<(), String> {
     let m = &c.m;
     let mask = &c.mask;
-    let accept = |id: u32| mask.get(id as usize).copied().unwrap_or(false);
+    let outside = c.outside;
+    let accept = |id: u32| mask.get(id as usize).copied().unwrap_or(outside);
     let (map, out) = check_retain(m, &accept)?;
+    if outside {
+        obs.class("predicate/accepts_foreign_ids");
+    }
     let n = m.types.len();
     let kept_with_refs = map.keys().any(|k| !m.types[*k as usize].ty.refs().is_empty());
     if map.len() < n && kept_with_refs {
@@ -543,9 +551,9 @@ fn c10_strat(max: usize) -> BoxedStrategy<C10Case> {
                 1 => Just(vec![false; n]),
                 2 => (0..n).prop_map(move |i| (0..n).map(|k| k == i).collect::<Vec<bool>>()),
             ];
-            (Just(m), mask)
+            (Just(m), mask, prop::bool::weighted(0.35))
         })
-        .prop_map(|(m, mask)| C10Case { m, mask })
+        .prop_map(|(m, mask, outside)| C10Case { m, mask, outside })
         .boxed()
 }
 
